@@ -1510,6 +1510,65 @@ func funcSetpathWithAllocator(v any, args []any) any {
 	return setpath(v, args[0], args[1], args[2].(allocator))
 }
 
+// Used in compiler#compileModify. The update function may have stored the
+// current value at the path (or a slice of it) anywhere in the new value, so
+// forget its allocated containers not to update them in place anymore.
+func funcSetpathWithAllocatorModify(v any, args []any) any {
+	a := args[2].(allocator)
+	if path, ok := args[0].([]any); ok {
+		a.release(v, path)
+	}
+	return setpath(v, args[0], args[1], a)
+}
+
+func (a allocator) release(v any, path []any) {
+	for _, p := range path {
+		switch w := v.(type) {
+		case map[string]any:
+			k, ok := p.(string)
+			if !ok {
+				return
+			}
+			v = w[k]
+		case []any:
+			if _, ok := p.(map[string]any); ok {
+				a.forget(w) // a slice shares the elements with the array
+				return
+			}
+			i, ok := toInt(p)
+			if !ok {
+				return
+			}
+			if i = clampIndex(i, -1, len(w)); i < 0 || i >= len(w) {
+				return
+			}
+			v = w[i]
+		default:
+			return
+		}
+	}
+	a.forget(v)
+}
+
+func (a allocator) forget(v any) {
+	switch v := v.(type) {
+	case map[string]any:
+		if a.allocated(v) {
+			delete(a, reflect.ValueOf(v).Pointer())
+			for _, v := range v {
+				a.forget(v)
+			}
+		}
+	case []any:
+		if a.allocated(v) {
+			delete(a, reflect.ValueOf(v).Pointer())
+			for _, v := range v {
+				a.forget(v)
+			}
+		}
+	}
+}
+
 func setpath(v, p, n any, a allocator) any {
 	path, ok := p.([]any)
 	if !ok {
@@ -1709,7 +1768,7 @@ func updateArraySlice(v []any, m map[string]any, path []any, n any, a allocator)
 		}
 		return v, nil
 	}
-	u, err := update(v[start:end], path, n, a)
+	u, err := update(v[start:end:end], path, n, a)
 	if err != nil {
 		return nil, err
 	}
